@@ -249,7 +249,7 @@ class Spec:
                 fr = frozenset(r)
                 if len(fr) != len(r) or fr not in pub: return 'ERR'
                 tg.append(pub[fr])
-            self.encs.append((all(h for h, _ in tg), [v for _, v in tg])); return 'OK'
+            self.encs.append((all(h for h, _ in tg), [v for _, v in tg])); self.last_mode = all(h for h, _ in tg); return 'OK'
         if op == 'DE':
             if not self.usks or not self.encs: return 'NOIDX'
             u = self.usks[int(f[1]) % len(self.usks)]; hyb, vs = self.encs[int(f[2]) % len(self.encs)]
@@ -265,7 +265,7 @@ class Spec:
             rs = [r for r in rs if r in pub]
             if not rs: return 'ERR'
             tg = [pub[r] for r in rs]
-            self.encs.append((all(h for h, _ in tg), [v for _, v in tg])); return 'OK'
+            self.encs.append((all(h for h, _ in tg), [v for _, v in tg])); self.last_mode = all(h for h, _ in tg); return 'OK'
         if op == 'AP':
             # the two policy -> rights maps, as sets of right byte strings (LEB128 of the sorted identifiers; entity numbers
             # coincide with attribute identifiers because both are handed out by a monotone counter starting at 0)
@@ -301,4 +301,14 @@ class Spec:
 def predict(script):
     s = Spec(); out = []
     for l in script: out.append(s.step(l))
+    return out
+
+
+def predict_modes(script):
+    """for every successful EN / RC line: True = the encapsulation must be hybridized (every right it targets is), False = classic; None elsewhere"""
+    s = Spec(); out = []
+    for l in script:
+        s.last_mode = None
+        r = s.step(l)
+        out.append(s.last_mode if (r == 'OK' and l.split(' ')[0] in ('EN', 'RC')) else None)
     return out
